@@ -98,6 +98,10 @@ def run_fault(pr, fault, vcs, dry_first, set_version):
 
 def run(chk, driver, tier):
     rng = chk.rng
+    # the COMPOSED model of the whole command (Model/Update.lean, theorems Props/Update.lean) against the real CLI: exit code, event trace and
+    # every configured file afterwards, on generated projects x the flag/config lattice x tag and status listings x faults x failure positions
+    import props.updfull as updfull
+    updfull.run(chk, driver, 2500 if tier == "thorough" else 60)
     nproj = 300 if tier == "thorough" else 14
     chk.extra["rule"] = ("generated projects (1..5 files x 1..4 patterns) x EVERY single fault position: each configured file removed, each file blanked, each (file, pattern) "
                          "occurrence removed; with commit on (fake git) and off; --dry before the real run in half of them; flags or --set-version; "
